@@ -16,7 +16,7 @@ def check(ctx):
         "map_events(events) with Event::new(name, timestamp, properties); R6 each convert is iter -> map -> collect with "
         "no selective adaptor, report() -> try_report() -> convert -> send with is_empty() the only early exit; R7a-R7d the Jaeger send loop "
         "(the C20 rules, as the 'each record is transmitted exactly once' clause for Jaeger: a datagram is sent only below the limit, so the "
-        "socket cannot refuse it and abort the rest of the batch; a span is skipped only when it alone exceeds the limit).")
+        "socket cannot refuse it and abort the rest of the batch; a span is skipped only when it alone exceeds the limit). R5 also: every attribute value reaches KeyValue::new as text (no parsing into typed values).")
     ctx.not_decided = ("well-formedness of the bytes beyond ids/names/positions (the codec crates' behaviour), UTF-8 and "
                        "top-bit values, begin + duration overflow in the OpenTelemetry path (value level).")
     facts = ctx.facts("E")
